@@ -5,6 +5,7 @@ import Driver.OpsTopo
 import Driver.OpsCkt
 import Driver.OpsSess
 import Driver.OpsBasic
+import Driver.OpsCmd
 open Driver
 
 def opGrid (args : List String) : String :=
@@ -45,6 +46,7 @@ def dispatch (line : String) : String :=
   | "ckt" :: r => opCkt r
   | "sess" :: r => opSess r
   | "basic" :: r => opBasic r
+  | "cmd" :: r => opCmd r
   | _ => "bad-op"
 
 partial def loop (h : IO.FS.Stream) (out : IO.FS.Stream) : IO Unit := do
